@@ -13,7 +13,7 @@ Definition r_lt (a b : R) : bool := if Rlt_dec a b then true else false.
 Definition r_eqb (a b : R) : bool := if Req_EM_T a b then true else false.
 Definition r_sign (x : R) : R := if Rlt_dec 0 x then 1 else if Rlt_dec x 0 then -1 else 0.
 Definition rops : numops R :=
-  Build_numops R Rplus Rminus Rmult r_lt r_eqb Rabs r_sign (fun _ => true) 0.
+  Build_numops R Rplus Rminus Rmult r_lt r_eqb Rabs r_sign (fun _ => true) 0 IZR.
 
 Lemma r_lt_false a b : r_lt a b = false -> b <= a.
 Proof. unfold r_lt. destruct (Rlt_dec a b); [discriminate|lra]. Qed.
@@ -170,8 +170,10 @@ Proof.
   pose proof (within_length _ _ _ Hc) as [Hlc _].
   unfold get_status. cbn [nsub rops].
   destruct (sv_mode sv =? 50)%Z.
-  - destruct ((length (e_spl e) =? sc_dof sc)%nat && negb (sc_dof sc =? 0)%nat) eqn:Hg.
-    + apply andb_true_iff in Hg as [Hg _]. apply Nat.eqb_eq in Hg.
+  - destruct (tk_pt (sv_trk sv)); [|repeat split; cbn; auto; lra].
+    destruct (tk_times (sv_trk sv)) as [|first rest]; [repeat split; cbn; auto; lra|].
+    destruct (nge rops (e_now e) first && (length (e_spl e) =? sc_dof sc)%nat && negb (sc_dof sc =? 0)%nat) eqn:Hg.
+    + apply andb_true_iff in Hg as [Hg _]. apply andb_true_iff in Hg as [_ Hg]. apply Nat.eqb_eq in Hg.
       assert (Hw : within (sc_min sc) (sc_max sc)
                      (move_all rops (e_now e - sv_last sv) (sc_delta sc) (sv_coords sv)
                                (clamp_all rops (sc_min sc) (sc_max sc) (e_spl e)))).
@@ -264,13 +266,17 @@ Qed.
 
 Lemma refresh_all_inv now e : now <= e_now e -> forall scs svs spls,
   Forall wf_sconf scs -> Forall2 (sv_inv now) scs svs ->
-  Forall2 (sv_inv (e_now e)) scs (refresh_all rops e scs svs spls).
+  Forall2 (sv_inv (e_now e)) scs (fst (refresh_all rops e scs svs spls)).
 Proof.
   intros Hn scs svs spls Hwf H. revert spls.
-  induction H as [|sc sv scs svs H0 H IH]; intros spls; cbn; [constructor|].
-  inversion Hwf as [|? ? Hsc Hscs]; subst. constructor.
-  - apply (get_status_inv sc (mk_env (e_tick e) (e_now e) [] (hd [] spls) false) sv now); auto.
-  - apply IH. exact Hscs.
+  induction H as [|sc sv scs svs H0 H IH]; intros spls; cbn [refresh_all]; [constructor|].
+  inversion Hwf as [|? ? Hsc Hscs]; subst.
+  assert (Hg : sv_inv (e_now e) sc (get_status rops sc (mk_env (e_tick e) (e_now e) [] (hd [] spls) false) sv)).
+  { apply (get_status_inv sc (mk_env (e_tick e) (e_now e) [] (hd [] spls) false) sv now); auto. }
+  destruct (gs_raises sv).
+  - cbn [fst]. constructor; [exact Hg|]. eapply Forall2_impl; [|exact H]. intros a b Hab. eapply sv_inv_mono; eauto.
+  - specialize (IH Hscs (tl spls)). destruct (refresh_all rops e scs svs (tl spls)) as [r x]. cbn [fst] in *.
+    constructor; assumption.
 Qed.
 
 Lemma init_servos_inv : forall scs, Forall wf_sconf scs ->
@@ -309,9 +315,11 @@ Proof.
   destruct (s_cover s) as [[t p]|]; [destruct (t <=? tick)%Z|]; exact Hm.
 Qed.
 
-Lemma refresh_inv now e spls s : sys_inv now s -> now <= e_now e -> sys_inv (e_now e) (refresh rops cf e spls s).
+Lemma refresh_inv now e spls s : sys_inv now s -> now <= e_now e -> sys_inv (e_now e) (fst (refresh rops cf e spls s)).
 Proof.
-  intros H Hn. unfold sys_inv, refresh in *. cbn [s_servos]. apply refresh_all_inv with (now := now); auto.
+  intros H Hn. unfold sys_inv, refresh in *.
+  pose proof (refresh_all_inv now e Hn (c_servos cf) (s_servos s) spls wf H) as G.
+  destruct (refresh_all rops e (c_servos cf) (s_servos s) spls) as [r x]. exact G.
 Qed.
 
 (* table rows have one cell per axis (checked on the generated table) *)
@@ -374,9 +382,12 @@ Proof.
   intros Hs. unfold h_status, bad. destruct args as [|sid [|b l]]; intros H; try inv_same.
   destruct (find_servo sid 0 (c_servos cf)) as [[i sc]|] eqn:Hf; try inv_same.
   destruct (nth_error (s_servos s) i) as [sv|] eqn:Hsv; try inv_same.
-  apply find_servo_nth0 in Hf. eapply set_servo_inv; eauto.
-  eapply get_status_inv with (now := e_now e); [eapply wf_nth; eauto| |lra].
-  eapply Forall2_nth; eauto.
+  apply find_servo_nth0 in Hf.
+  assert (Hg : sys_inv (e_now e) (set_servo s i (get_status rops sc e sv))).
+  { eapply set_servo_inv; eauto.
+    eapply get_status_inv with (now := e_now e); [eapply wf_nth; eauto| |lra].
+    eapply Forall2_nth; eauto. }
+  destruct (gs_raises sv); injection H as <- _; exact Hg.
 Qed.
 
 Lemma h_setup_inv s e args s' r : sys_inv (e_now e) s ->
@@ -469,11 +480,11 @@ Proof.
   destruct (nth_error (s_servos s) i) as [sv|] eqn:Hsv; try inv_same.
   destruct (pyint orc tid); [|inv_same]. destruct (pyint orc pid); [|inv_same].
   destruct (pt_coords rops orc toks (sv_offs sv)) as [[l|]|]; try inv_same.
-  destruct (e_pt_ok e); try inv_same.
   apply find_servo_nth0 in Hf.
-  match goal with |- sys_inv _ (set_last (set_servo s i ?x) _) =>
-    eapply sys_inv_servos with (s := set_servo s i x); [reflexivity|] end.
-  eapply set_servo_inv; eauto. eapply sv_inv_same with (sv := sv); [reflexivity|reflexivity|reflexivity|]. eapply Forall2_nth; eauto.
+  assert (Hk : forall m tk, sys_inv (e_now e) (set_servo s i (set_trk sv m tk))).
+  { intros m tk. eapply set_servo_inv; eauto.
+    eapply sv_inv_same with (sv := sv); [reflexivity|reflexivity|reflexivity|]. eapply Forall2_nth; eauto. }
+  destruct (pt_book rops orc cf e (sv_trk sv) z z0 st) as [tk|tk|tk]; injection H as <- _; apply Hk.
 Qed.
 
 Lemma dispatch_inv h f s e args s' r : sys_inv (e_now e) s ->
@@ -564,7 +575,10 @@ Proof.
     eapply Forall_forall in Hpos; [exact Hpos|]. eapply nth_error_In; eauto. }
   unfold get_status in Ec'. cbn [nsub rops] in Ec'.
   destruct (sv_mode sv =? 50)%Z.
-  - destruct (_ && _); cbn in Ec'.
+  - destruct (tk_pt (sv_trk sv)); [|cbn in Ec'; rewrite Ec in Ec'; injection Ec' as <-; exact Hz].
+    destruct (tk_times (sv_trk sv)) as [|first rest]; [cbn in Ec'; rewrite Ec in Ec'; injection Ec' as <-; exact Hz|].
+    destruct (nge rops (e_now e) first && (length (e_spl e) =? sc_dof sc)%nat && negb (sc_dof sc =? 0)%nat);
+      cbn in Ec'.
     + eapply move_all_speed; eauto. lra.
     + rewrite Ec in Ec'. injection Ec' as <-. exact Hz.
   - destruct (_ || _); cbn in Ec'.
